@@ -139,6 +139,12 @@ func c17Reducers() []*c17Reducer {
 		reduce: func(prev, v interface{}) interface{} { o, _ := prev.(ValCount); return o.add(v.(ValCount)) },
 		gen: func(rng *vk.Rand, k int) (func(i int) interface{}, string, string, interface{}) {
 			parts := c17ValCountGen(false, true)(rng, k)
+			for i := range parts {
+				// a shard whose values cancel (or are all zero) contributes Val 0 with a non-zero Count
+				if parts[i].Count > 0 && rng.Chance(1, 4) {
+					parts[i].Val = 0
+				}
+			}
 			var s ValCount
 			for _, p := range parts {
 				s.Val += p.Val * 1
